@@ -273,7 +273,7 @@ func c16Controlled(out *vlib.Out, r *vlib.Rand, nops int) {
 			holder[id] = a
 			acc.state = "waiting"
 			record(fmt.Sprintf("A%d:%d", a, id), "wait")
-		case x < 36:
+		case x >= 18 && x < 36:
 			// a client hello: matching, unregistered, or random/certificate of different secrets
 			h := nextH
 			nextH++
@@ -306,7 +306,7 @@ func c16Controlled(out *vlib.Out, r *vlib.Rand, nops int) {
 				}
 			}
 			record(fmt.Sprintf("H%d:%d:%d", h, rnd, cert), ans)
-		case x < 54 && len(verifiable) > 0:
+		case x >= 36 && x < 54 && len(verifiable) > 0:
 			h := verifiable[r.Intn(len(verifiable))]
 			hs := hss[h]
 			// server side (the listener's VerifyConnection) and client side (dial.go's verifyServerCertificate)
@@ -322,7 +322,7 @@ func c16Controlled(out *vlib.Out, r *vlib.Rand, nops int) {
 				hs.stage = "done"
 				record(fmt.Sprintf("V%d", h), "drop")
 			}
-		case x < 68 && len(routable) > 0:
+		case x >= 54 && x < 68 && len(routable) > 0:
 			h := routable[r.Intn(len(routable))]
 			hs := hss[h]
 			ch, err := l.chFromID(c16CertsOf(hs.rnd).rnd)
@@ -336,7 +336,7 @@ func c16Controlled(out *vlib.Out, r *vlib.Rand, nops int) {
 				hs.owner = a
 			}
 			record(fmt.Sprintf("R%d", h), "ch")
-		case x < 84 && len(sendable) > 0 && r.Chance(5, 6):
+		case x >= 68 && x < 84 && len(sendable) > 0 && r.Chance(5, 6):
 			h := sendable[r.Intn(len(sendable))]
 			hs := hss[h]
 			select {
@@ -373,11 +373,11 @@ func c16Controlled(out *vlib.Out, r *vlib.Rand, nops int) {
 				fail("C16:cross-delivery", fmt.Sprintf("acceptor %d waits for secret %d but received a connection with hello-random of secret %d and certificate of secret %d", hs.owner, acc.id, hs.rnd, hs.cert))
 			}
 			checkFree(hs.owner, acc.id)
-		case x < 84 && len(sendable) > 0:
+		case x >= 68 && x < 84 && len(sendable) > 0:
 			h := sendable[r.Intn(len(sendable))]
 			hss[h].stage = "done"
 			record(fmt.Sprintf("T%d", h), "drop")
-		case x < 94 && len(waiting) > 0:
+		case x >= 84 && x < 94 && len(waiting) > 0:
 			a := waiting[r.Intn(len(waiting))]
 			acc := accs[a]
 			if r.Chance(1, 3) {
@@ -537,7 +537,7 @@ func c16Concurrent(out *vlib.Out, r *vlib.Rand, n int) {
 	var wg sync.WaitGroup
 	accept := func(secret int, cancelAt time.Duration, kind string) {
 		defer wg.Done()
-		ctx, cancel := context.WithTimeout(context.Background(), 25*time.Second)
+		ctx, cancel := context.WithTimeout(context.Background(), 14*time.Second)
 		defer cancel()
 		if cancelAt > 0 {
 			go func() { time.Sleep(cancelAt); cancel() }()
@@ -587,7 +587,7 @@ func c16Concurrent(out *vlib.Out, r *vlib.Rand, n int) {
 	dial := func(secret int, delay time.Duration, registered bool) {
 		defer wg.Done()
 		time.Sleep(delay)
-		ctx, cancel := context.WithTimeout(context.Background(), 12*time.Second)
+		ctx, cancel := context.WithTimeout(context.Background(), 10*time.Second)
 		defer cancel()
 		conn, err := DialWithContext(ctx, addr, &Config{PSK: c16Secret(secret), SCTP: ClientOpen})
 		if err != nil {
@@ -772,6 +772,7 @@ func c16Session(out *vlib.Out, r *vlib.Rand, sameSecret bool, forceHbEqual bool)
 	case bytes.Equal(g, full):
 		out.Count("session:stream-faithful")
 	case withHbEqual && bytes.Equal(g, without):
+		out.Count("session:heartbeat-equal-message-swallowed")
 		out.OracleFail(c16SigHB, fmt.Sprintf("real session: a %d-byte application message equal to the heartbeat payload never reached the accepting side's reader (%d of %d bytes arrived)", len(hb), len(g), len(full)), replay+" msgs-with-heartbeat-equal")
 	case bytes.HasPrefix(full, g) || bytes.HasPrefix(without, g):
 		out.Count("session:incomplete-within-timeout") // slow machine: not a safety violation
